@@ -157,6 +157,17 @@ def skipAttrWs : Nat → M Bytes
 def readAttribute (tag : Tag) : M (Tok × Tag) := do
   let len ← (fun st => (.ok st.rest.length, st) : M Nat)
   let buf ← skipAttrWs (len + 2)
+  -- (repaired) white space may separate the last attribute, or the tag name, from the '>' or "/>" that ends the tag:
+  -- there is no further attribute then (an attribute without a value is ignored by the caller)
+  if buf.take 1 == [62] then do
+    setA false
+    discard 1
+    pure ({ pt := 1, parent := tag.self, self := (0, 0), val := [] }, tag)
+  else if buf.take 2 == [47, 62] then do
+    setA false
+    discard 2
+    pure ({ pt := 1, parent := tag.self, self := (0, 0), val := [] }, { tag with t := .solo })
+  else
   match parseAttrName buf with
   | none => fail .negativeRead
   | some (p, d) =>
